@@ -497,6 +497,16 @@ func runPath(c PathCase, r *runlog.R) error {
 			return fmt.Errorf("after op %d (kind %d, name %q, idx %d): a list grew to %d entries (longest before: %d) although MaxIdx is %d", i, op.Kind, op.Name, op.Idx, n, before, limit)
 		}
 	}
+	// nil arguments are inputs too
+	cfg.SetChild("zz", -1, nil, opts...)
+	cfg.SetChild("l", 0, nil, opts...)
+	cfg.Merge(nil, opts...)
+	cfg.Merge((*ucfg.Config)(nil), opts...)
+	cfg.Merge((*map[string]interface{})(nil), opts...)
+	ucfg.NewFrom(nil, opts...)
+	cfg.Unpack(nil, opts...)
+	cfg.Unpack((*map[string]interface{})(nil), opts...)
+	cfg.Unpack(map[string]interface{}{}, opts...)
 	// whatever state the sequence left behind is read completely
 	var m map[string]interface{}
 	cfg.Unpack(&m, opts...)
@@ -552,7 +562,61 @@ type NFloat float32
 type NUint uint16
 type NDur time.Duration
 
+// named pointer types
+type NPtr *int
+type NPtrPtr *NPtr
+type NPtrStruct *struct {
+	X int `config:"x"`
+}
+
+// interface types with methods the library looks for, and types implementing them with pointer receivers
+type unpIface interface{ Unpack(*ucfg.Config) error }
+type implAll struct {
+	X int `config:"x"`
+}
+
+func (i *implAll) Unpack(c *ucfg.Config) error { return nil }
+func (i *implAll) InitDefaults()               { i.X = 1 }
+func (i *implAll) Validate() error             { return nil }
+func (i *implAll) String() string              { return "impl" }
+func (i *implAll) Error() string               { return "impl" }
+
+// methods named Unpack that match none of the Unpacker interfaces
+type unpNoResult struct{ X int }
+
+func (u *unpNoResult) Unpack(c *ucfg.Config) {}
+
+type unpTwoResults struct{ X int }
+
+func (u *unpTwoResults) Unpack(c *ucfg.Config) (int, error) { return 0, nil }
+
+type unpTwoParams struct{ X int }
+
+func (u *unpTwoParams) Unpack(a, b int) error { return nil }
+
+type unpOtherParam struct{ X int }
+
+func (u *unpOtherParam) Unpack(m map[string]int) error { return nil }
+
+type unpValueRecv struct{ X int }
+
+func (u unpValueRecv) Unpack(c *ucfg.Config) error { return nil }
+
+type unpInt int64
+
+func (u *unpInt) Unpack(v int64) error { *u = unpInt(v); return nil }
+
+type unpNoErr struct{ X int }
+
+func (u *unpNoErr) Unpack(c *ucfg.Config) string { return "" }
+
+var ifaceImpl = reflect.ValueOf(&implAll{})
+
 var oddBase = map[string]reflect.Type{
+	"nptr": reflect.TypeOf(NPtr(nil)), "nptrptr": reflect.TypeOf(NPtrPtr(nil)), "nptrstruct": reflect.TypeOf(NPtrStruct(nil)),
+	"unpiface": reflect.TypeOf((*unpIface)(nil)).Elem(), "initiface": reflect.TypeOf((*ucfg.Initializer)(nil)).Elem(), "validiface": reflect.TypeOf((*ucfg.Validator)(nil)).Elem(),
+	"unp0": reflect.TypeOf(unpNoResult{}), "unp2": reflect.TypeOf(unpTwoResults{}), "unp2p": reflect.TypeOf(unpTwoParams{}), "unpother": reflect.TypeOf(unpOtherParam{}),
+	"unpval": reflect.TypeOf(unpValueRecv{}), "unpint": reflect.TypeOf(unpInt(0)), "unpnoerr": reflect.TypeOf(unpNoErr{}), "implall": reflect.TypeOf(implAll{}),
 	"chan": reflect.TypeOf(make(chan int)), "func": reflect.TypeOf(func() {}), "complex": reflect.TypeOf(complex128(0)), "uintptr": reflect.TypeOf(uintptr(0)),
 	"map[int]": reflect.TypeOf(map[int]string{}), "error": reflect.TypeOf((*error)(nil)).Elem(), "unsafe": reflect.TypeOf(unsafe.Pointer(nil)),
 	"stringer": reflect.TypeOf((*fmt.Stringer)(nil)).Elem(), "time": reflect.TypeOf(time.Time{}), "[0]int": reflect.TypeOf([0]int{}), "struct{}": reflect.TypeOf(struct{}{}),
@@ -567,7 +631,8 @@ var oddBase = map[string]reflect.Type{
 
 var oddNames = func() []string {
 	names := []string{"chan", "func", "complex", "uintptr", "map[int]", "error", "unsafe", "stringer", "time", "[0]int", "struct{}", "iface", "*Config", "map[string]*Config",
-		"int", "string", "bool", "float", "dur", "[]byte", "map[iface]iface", "nstr", "nint", "uint8", "float32", "*iface", "[]*iface", "nbool", "nfloat", "nuint", "ndur", "regexp", "regexpval", "rec", "map[nstr]", "map[nstr]iface", "reclist"}
+		"int", "string", "bool", "float", "dur", "[]byte", "map[iface]iface", "nstr", "nint", "uint8", "float32", "*iface", "[]*iface", "nbool", "nfloat", "nuint", "ndur", "regexp", "regexpval", "rec", "map[nstr]", "map[nstr]iface", "reclist",
+		"nptr", "nptrptr", "nptrstruct", "unpiface", "initiface", "validiface", "unp0", "unp2", "unp2p", "unpother", "unpval", "unpint", "unpnoerr", "implall"}
 	return names
 }()
 
@@ -705,6 +770,9 @@ func fill(v reflect.Value, depth int) {
 	case reflect.Interface:
 		if v.NumMethod() == 0 {
 			v.Set(reflect.ValueOf(map[string]interface{}{"i": 1}))
+		} else if ifaceImpl.Type().AssignableTo(v.Type()) {
+			// a non-empty interface holds a pointer to a type whose methods have pointer receivers
+			v.Set(reflect.ValueOf(&implAll{X: 2}))
 		}
 	}
 }
